@@ -3,7 +3,6 @@ package obfuscation
 import (
 	"fmt"
 	"strconv"
-	"strings"
 
 	"golang.org/x/exp/slices"
 
@@ -155,25 +154,14 @@ func (obfuscator Obfuscator) obfuscateJSON(
 	return obfuscatedJSON, nil
 }
 
-// isCursorInExcludedPath checks if the given path segment should be excluded from obfuscation
-// usage only slices.Contains(excludedPaths, cursor) cannot work for JSONPath exclusions,
-// since it compares the whole string and works only for simple strings exclusions
+// isCursorInExcludedPath checks if the given cursor is one of the excluded paths.
+// Exclusions are written in cursor notation (".user.name", ".items[]", "" for the
+// whole document); callers holding JSONPath-style exclusions such as
+// "$.request.body.user.name" strip their "$.request.body" prefix first.
+// Only an exact match excludes: matching by suffix would also expose every other
+// value whose cursor happens to end like the exclusion (e.g. a top-level "name").
 func isCursorInExcludedPath(cursor string, excludedPaths []string) bool {
-	// simple string comparison
-	if slices.Contains(excludedPaths, cursor) {
-		return true
-	}
-
-	// json path support
-	if cursor == "" {
-		return false
-	}
-	for _, path := range excludedPaths {
-		if strings.HasSuffix(path, cursor) {
-			return true
-		}
-	}
-	return false
+	return slices.Contains(excludedPaths, cursor)
 }
 
 func getKeys(object *fastjson.Object) []string {
